@@ -343,7 +343,9 @@ class Indentation(afmformats.AFMForceDistance):
         if self._rating is None:
             rt = [np.nan] * 6
         else:
-            rt = self._rating
+            # (copies, such that in-place changes of the returned objects
+            # cannot alter the cached rating key)
+            rt = copy.deepcopy(self._rating)
         rdict["Hash"] = rt[0]
         rdict["Regressor"] = rt[1]
         rdict["Training set"] = rt[2]
